@@ -1,5 +1,5 @@
 SPECIFICATION MCSpec
-CONSTANTS MaxFaults = 2 MaxSigs = 1 Sigs = {"TERM", "PIPE"} AllFlagCombos = TRUE
+CONSTANTS MaxFaults = 1 MaxSigs = 1 Sigs = {"TERM"} AllFlagCombos = TRUE MaxFiles = 2
 INVARIANTS TypeOK DataSafe FailureKeepsSource FailureCleansUp NoJunkLeft ExitZeroMeansDone FailureIsReported
            KeepNeverRemoves NoForeignLost NoOverwrite CleanBetweenFiles AbortDiesBySignal
 CHECK_DEADLOCK FALSE
